@@ -37,7 +37,7 @@ func init() {
 		Level: "fault_enumeration",
 		Rule: "case kinds: (a) embedded API — generated queries (operators in every position: flatten, group, sort, offset, limit, having, subquery filter) on memory/disk/mixed datasets, with the deadline already expired, " +
 			"forced past at a hook point before the scan (iterate.afterCopy / iterate.beforeScan) or inside the consumer callback at row k (the callback blocks until the deadline has passed: the decision is logical, not timed), and a memory cap; " +
-			"(c) HTTP API with small QueryTimeout / MaxResponseBytes through /immediate and then /cached/<permalink>; (d) rpc client query with a deadline; (b) cluster: see C10's harness (partitions without handler / failing / slow). " +
+			"(c) HTTP API with small QueryTimeout / MaxResponseBytes through /immediate and then /cached/<permalink>; (d) rpc client query with a deadline; (b) cluster: real server nodes (partitions without handler / failing / slow; followers restarted with a memory cap so that their scans fail after rows were sent; HTTP response cap on the leader). " +
 			"oracle: delivered rows a strict sub-multiset of the unfaulted result AND success signal (nil error / HTTP 200 / all partitions successful) => violation; non-trivial = the fault actually cut rows; distinct by (query, fault point)",
 		Assumptions: []string{"a complete result with an error, or an incomplete one with an error, are both fine", "data is quiescent"},
 		Cases: func(tier string) int {
